@@ -21,13 +21,13 @@ func init() {
 			"(R2) the server attaches decoded metadata to a stream's context only if it was carried by a metadata packet with the same stream id as the invoke being served, and that id/map come only from the metadata branch; " +
 			"(R3) the client writes the metadata packet before the invoke packet on the same stream, only when there is metadata, and the bytes are encoded from the call's own context into a buffer no other call can write.",
 		NotDecided: "map round-trip for arbitrary strings; the arithmetic of varintSize / the announced entry length; scoping for all call histories (behavioural). drpcmetadata.Add mutating a map shared with the parent context is noted in DESIGN.md and not claimed.",
-		Rules: []Rule{
+		Rules: append([]Rule{
 			{ID: "C11.R1", Doc: "metadata entry layout: encoder and decoder agree with each other and with the protobuf field table; decoder is total", Run: c11r1},
 			{ID: "C11.R2", Doc: "NewServerStream attaches metadata only under metaID == invoke packet's stream id; metaID/meta come only from the metadata branch", Run: c11r2},
 			{ID: "C11.R3", Doc: "client: metadata packet precedes the invoke on the same stream, is encoded from the call's own ctx into a call-private buffer", Run: c11r3},
 			{ID: "C11.R4", Alias: "C18.R4"},
 			{ID: "C11.S1", Alias: "C18.R2"},
-		},
+		}, disciplineRules("C11", "drpcmetadata", "drpcconn", "drpcmanager")...),
 	})
 }
 
@@ -260,6 +260,29 @@ func c11r1(c *an.Ctx) {
 			}
 		}
 		c.Check(okLoop, fmt.Sprintf("Decode | loop %d consumes input through readEntry", i), c.P.Pos(dec.Pos()), "", "Decode's loop does not advance through readEntry")
+		// ... until nothing is left: the loop's exit test is on the remaining length being zero
+		okAll := false
+		for b := range l.Blocks {
+			if len(b.Instrs) == 0 {
+				continue
+			}
+			br, isIf := b.Instrs[len(b.Instrs)-1].(*ssa.If)
+			if !isIf {
+				continue
+			}
+			leaves := false
+			for _, sc := range b.Succs {
+				if !l.Blocks[sc] {
+					leaves = true
+				}
+			}
+			if cmp, isCmp := br.Cond.(*ssa.BinOp); isCmp && leaves && lenOperand(cmp.X) != nil {
+				if k, isK := an.ConstInt(cmp.Y); isK && ((k == 0 && (cmp.Op == token.GTR || cmp.Op == token.NEQ || cmp.Op == token.EQL)) || (k == 1 && (cmp.Op == token.GEQ || cmp.Op == token.LSS))) {
+					okAll = true
+				}
+			}
+		}
+		c.Check(okAll, fmt.Sprintf("Decode | loop %d runs until the input is empty", i), c.P.Pos(dec.Pos()), "", "Decode stops with bytes left over: trailing garbage after the last entry is accepted as valid metadata")
 	}
 	// readEntry's success return is a strict suffix: buf was advanced past the tag byte before slicing
 	// every return case that can report success yields a remainder derived from the input by at
@@ -494,6 +517,28 @@ func c11r3(c *an.Ctx) {
 				}
 			}
 			c.Check(guarded, entry+" | metadata packet only when there is metadata", c.At(metaW), "", "an empty metadata packet is sent (or the guard tests something else)")
+			// every way out that reports success has written the invoke packet
+			okRet, badAt := true, ""
+			nCases := 0
+			for _, rc := range an.ReturnCases(fn) {
+				if len(rc.Vals) == 0 {
+					continue
+				}
+				nCases++
+				v := rc.Vals[len(rc.Vals)-1]
+				switch {
+				case an.InstrDominates(invW, rc.Ret) && !sameBlockBefore(rc.Ret, invW):
+				case isCallResult(v, rawWrite) && an.Unwrap(v) == ssa.Value(invW.(*ssa.Call)):
+				case !knownNilCase(v, rc) && provablyNonNilCase(v, rc):
+				default:
+					okRet, badAt = false, c.At(rc.Ret)
+				}
+			}
+			pos := c.P.Pos(fn.Pos())
+			if badAt != "" {
+				pos = badAt
+			}
+			c.Check(okRet && nCases > 0, entry+" | every return that may report success has written the invoke packet", pos, "", "a way out returns a nil (or possibly nil) error without the KindInvoke packet having been written: the call reports success, the server never sees the RPC (typically a flipped error test after the metadata write)")
 			// the bytes: Encode(<call-private buffer>, Get(ctx)) of the call's own ctx, followed through helper parameters
 			for _, src := range paramSources(metaArg, efn, 0) {
 				why := "it reaches the write through " + an.R(src.v) + " in " + an.ShortFunc(src.fn)
@@ -719,4 +764,19 @@ func linearFormEnv(c *an.Ctx, v ssa.Value, env map[ssa.Value]ssa.Value, depth in
 		return map[string]int64{a: 1}, true
 	}
 	return nil, false
+}
+
+func sameBlockBefore(a, b ssa.Instruction) bool {
+	if a.Block() != b.Block() {
+		return false
+	}
+	for _, in := range a.Block().Instrs {
+		if in == a {
+			return true
+		}
+		if in == b {
+			return false
+		}
+	}
+	return false
 }
